@@ -88,6 +88,10 @@ pub struct Inner {
 /// Builds `prog` under `cfg` (padded with `pad` no-op gates so that the FRI schedule has layers).
 /// Err(reason) = this (program, configuration, input) is not usable as an inner shape.
 pub fn build_inner(prog: &Program, cfg: &CfgSpec, inputs: &[u64], pad: usize) -> Result<Inner, String> {
+    build_inner_opt(prog, cfg, inputs, pad, true)
+}
+/// `probe = false`: the configuration is known to be admissible for this degree (a sibling circuit was built)
+pub fn build_inner_opt(prog: &Program, cfg: &CfgSpec, inputs: &[u64], pad: usize, probe: bool) -> Result<Inner, String> {
     if cfg.keccak {
         return Err("inner configuration must be algebraic (Poseidon)".into());
     }
@@ -97,6 +101,7 @@ pub fn build_inner(prog: &Program, cfg: &CfgSpec, inputs: &[u64], pad: usize) ->
         return Err("inadmissible row width".into());
     }
     // probe the degree first: the FRI-side admissibility depends on it
+    if probe {
     let probe = guarded(|| {
         let mut b = CircuitBuilder::<F, D>::new(cfg.probe_config());
         let built = prog::build(prog, &mut b, 64).map_err(|e| e.to_string())?;
@@ -120,6 +125,7 @@ pub fn build_inner(prog: &Program, cfg: &CfgSpec, inputs: &[u64], pad: usize) ->
         if degree_bits + cfg.rate < s + cfg.cap {
             return Err("inadmissible: MinSize schedule folds below the cap height".into());
         }
+    }
     }
     let built = guarded(|| {
         let mut b = CircuitBuilder::<F, D>::new(cfg.config());
